@@ -54,7 +54,8 @@ pub(super) fn get_color_indexed(
     if node.has_attribute("rgb") {
         let raw = node.attribute("rgb").unwrap();
         // Strip leading alpha byte from ARGB (e.g. "FF4472C4" → "#4472C4")
-        let hex = if raw.len() == 8 {
+        // `is_ascii` guards the byte slice
+        let hex = if raw.len() == 8 && raw.is_ascii() {
             format!("#{}", raw[2..].to_ascii_uppercase())
         } else {
             format!("#{}", raw.to_ascii_uppercase())
